@@ -30,6 +30,13 @@ PROPS = {
              "k logins at one frozen instant, redirect for a presented id, time-window attacker trying every candidate instant in +-w ns with a fresh replica per candidate; "
              "non-trivial = identifiers were produced and compared; distinct = (mode, instant, window, offset, k). evaluations counts plans; probes count candidate logins",
              {"runs": 1200, "budget_s": 25}, {"runs": 200000, "budget_s": 600}, must={"all": ["replayed-logins", "same-instant-logins", "time-window-candidates"]}),
+    "C01": P("plans = seeded histories of 5-40 steps (honest browsing, logout, attacker requests with absent/garbage/foreign/stale/attacker-chosen cookies on protected, public and "
+             "trigger-rule edge-case targets, forged callbacks, clock advances around token expiry, IdP behaviour changes, key rotation, crash-restart) in a fault-free and a fault-injecting "
+             "configuration (store err-before/err-after/evict/corrupt/crash at the n-th seam call, token endpoint reset-before/reset-after/5xx/truncated/garbage, key-source errors), "
+             "plus a systematic sweep: a scenario through every seam is recorded fault-free and re-run once per seam call x fault kind and for sampled pairs; "
+             "non-trivial = at least one justified OK and (a fault fired inside a check or an attacker request was judged); distinct = canonical event trace",
+             {"runs": 4000, "budget_s": 35}, {"runs": 400000, "budget_s": 900}, level="fault_enumeration",
+             must={"all": ["justified-ok", "ok-by-refresh", "sweep-single-faults", "sweep-pair-faults", "store-err-before", "store-err-after", "token-reset-after", "jwks-err", "crash-restart"]}),
 }
 
 
